@@ -109,6 +109,13 @@ def show(f):
 # ------------------------------------------------------------------ ROBDD
 
 
+NODE_BUDGET = 1500000  # a comparison that needs more than this is reported as not decided (a check never hangs on a formula)
+
+
+class TooLarge(Exception):
+    pass
+
+
 class BDD:
     def __init__(self, order):
         self.order = {v: i for i, v in enumerate(order)}
@@ -123,6 +130,8 @@ class BDD:
         key = (var, lo, hi)
         n = self.unique.get(key)
         if n is None:
+            if len(self.nodes) > NODE_BUDGET:
+                raise TooLarge("formula comparison exceeds %d decision-diagram nodes" % NODE_BUDGET)
             n = len(self.nodes)
             self.nodes.append(key)
             self.unique[key] = n
@@ -247,10 +256,13 @@ def compare(code, spec):
     """-> (equivalent, model where they differ or None, which side is true in that model)"""
     ats = atoms_of(spec, atoms_of(code, []))
     bdd = BDD(sorted(ats, key=lambda a: (a.count("↓") + a.count("["), a)))
-    ax = bdd.build(exclusivity(ats))
-    c = bdd.build(code)
-    s = bdd.build(spec)
-    diff = bdd.apply(_and, ax, bdd.apply(_xor, c, s))
+    try:
+        ax = bdd.build(exclusivity(ats))
+        c = bdd.build(code)
+        s = bdd.build(spec)
+        diff = bdd.apply(_and, ax, bdd.apply(_xor, c, s))
+    except (TooLarge, RecursionError) as e:
+        return False, {"(not decided: %s)" % e: True}, "code"
     if diff == 0:
         return True, None, None
     m = bdd.any_model(diff)
@@ -262,8 +274,11 @@ def compare(code, spec):
 def implies(a, b):
     ats = atoms_of(b, atoms_of(a, []))
     bdd = BDD(sorted(ats))
-    ax = bdd.build(exclusivity(ats))
-    d = bdd.apply(_and, ax, bdd.apply(_and, bdd.build(a), bdd.neg(bdd.build(b))))
+    try:
+        ax = bdd.build(exclusivity(ats))
+        d = bdd.apply(_and, ax, bdd.apply(_and, bdd.build(a), bdd.neg(bdd.build(b))))
+    except (TooLarge, RecursionError) as e:
+        return False, {"(not decided: %s)" % e: True}
     if d == 0:
         return True, None
     return False, bdd.any_model(d)
